@@ -5,7 +5,7 @@
 pid=$1; patch=$2; tier=${3:-quick}
 d=$(mktemp -d /tmp/seedrun-XXXXXX)
 mkdir -p $d/repo
-rsync -a --exclude '*.o' /repo/src $d/repo/
+rsync -a --exclude "*.o" /repo/src /repo/include $d/repo/
 ( cd $d/repo && patch -p1 -s < "$patch" ) || { echo "PATCH DID NOT APPLY"; rm -rf $d; exit 3; }
 cd /verif
 VERIF_REPO=$d/repo bin/check $pid $tier > $d/out.log 2>&1; rc=$?
